@@ -268,7 +268,11 @@ Error RACFGBuilder::on_instruction(InstNode* inst, InstControlFlow& control_type
               }
             }
 
-            ASMJIT_PROPAGATE(ib.add(work_reg, flags, use_regs, use_id, use_rewrite_mask, out_regs, out_id, out_rewrite_mask, op_rw_info.rm_size(), consecutive_parent));
+            // Only a register that continues the list (kConsecutive) has a consecutive parent - an operand that merely
+            // follows the list (the index vector of TBL/TBX) must not be chained to the last list register.
+            RAWorkReg* op_consecutive_parent = op_rw_info.has_op_flag(OpRWFlags::kConsecutive) ? consecutive_parent : nullptr;
+
+            ASMJIT_PROPAGATE(ib.add(work_reg, flags, use_regs, use_id, use_rewrite_mask, out_regs, out_id, out_rewrite_mask, op_rw_info.rm_size(), op_consecutive_parent));
             if (single_reg_ops == i) {
               single_reg_ops++;
             }
